@@ -8,7 +8,7 @@ EXPLANATION = ("Snapshot symmetry (S3: get_state/mark_truncation read exactly th
                "current, node count, token_count, non_skip_len, diagnostic count), write-set of attempt-callable skeleton methods is "
                "inside the snapshot (S12), delete callbacks run before truncation (S13); on generated code the choice-mode flag "
                "typestate (F1), no report / action while the flag may be set (F2, F3), delete dispatcher covers created kinds (F4), "
-               "`?` never dropped (F5), no insertion below the snapshot (F6), error suppression not switched on in an attempt (F8); the semantic pass's containment computation and its static ban on nested choices and actions recurse into every container construct (TRAV).")
+               "`?` never dropped (F5), no insertion below the snapshot (F6), error suppression not switched on in an attempt (F8); the semantic pass's containment computation and its static ban on nested choices and actions recurse into every container construct (TRAV), and the containment computation (which rules are used inside an ordered choice, decides `?` propagation and the ban on actions) runs to a fixpoint instead of a bounded number of rounds (FIXEXIT).")
 
 
 def run(ctx, rep):
@@ -18,3 +18,4 @@ def run(ctx, rep):
     common.s_rules(ctx, rep, [s3_s12, lambda i, r, o: skel.s13_delete(i, r)])
     common.g_rules(ctx, rep, ["F1", "F2", "F3", "F4", "F5", "F6", "F8"], floors={"F1": 300, "F2": 50})
     lrules.traversal_rule(ctx, rep, only=["OrderedChoiceValidator"], floor=14)
+    lrules.fixpoint_exit_rule(ctx, rep, only=["OrderedChoiceValidator::calc_containment"])
